@@ -2,7 +2,8 @@
 
 Pairs (g1, g2): g2 = relabelled + shuffled g1, optionally with one minimal perturbation (near-miss). Truth is decided by the
 independent backtracking oracle (pbt/oracle/iso.py); rdflib's compare.isomorphic, to_isomorphic equality, internal_hash,
-to_canonical_graph, graph_diff and skolemize/de_skolemize are checked against it."""
+to_canonical_graph, graph_diff and skolemize/de_skolemize are checked against it, on plain graphs, on further relabelled copies of the first
+graph and on ReadOnlyGraphAggregate views of the same triples."""
 from __future__ import annotations
 
 import json
@@ -11,6 +12,7 @@ import warnings
 from hypothesis import strategies as st
 
 from rdflib import Graph
+from rdflib.graph import ReadOnlyGraphAggregate
 from rdflib import compare
 
 from pbt.codec import T, key, tkey
@@ -95,6 +97,25 @@ def _run(case):
         if truth and h1 != h2:
             out.fail(("internal_hash-differs-for-isomorphic", fam), str(case))
             return out
+        # further relabelled, reshuffled copies of g1 (the outcome of the canonical labelling may depend on the order in which the
+        # blank nodes are met, so one copy per structure explores little): each is isomorphic to g1 by construction
+        for n, (perm, order) in enumerate(case.get("copies") or []):
+            labels = sorted({x[1] for t in j1 for x in (t[0], t[2]) if x[0] == "b"})
+            ren = {a: "c%d_%s" % (n, labels[perm[i] % len(labels)]) for i, a in enumerate(labels)} if len(set(p % max(len(labels), 1) for p in perm[:len(labels)])) == len(labels) else None
+            if ren is None:
+                continue
+            j1c = [[(["b", ren[x[1]]] if x[0] == "b" else x) for x in t] for t in j1]
+            j1c = [j1c[i] for i in sorted(range(len(j1c)), key=lambda i: (order[i % len(order)], i))]
+            gc = to_graph(j1c)
+            r = sut(compare.isomorphic, g1, gc)
+            if is_err(r) or r is not True:
+                out.fail(("compare.isomorphic", "false-negative", fam), f"truth=True got={r!r} for a relabelled copy {j1c} of g1: {case}")
+                return out
+            cc = sut(compare.to_canonical_graph, gc)
+            if is_err(cc) or gkeys(cc) != gkeys(sut(compare.to_canonical_graph, g1)):
+                out.fail(("canonical-graph-equality", "differs-for-isomorphic", fam), f"relabelled copy {j1c} of g1: {case}")
+                return out
+            out.cls("extra-copy")
         # the same IsomorphicGraph object after an edit that keeps its size: one edge redirected to another of its nodes
         ed = case.get("edit")
         if ed is not None and j1:
@@ -132,6 +153,33 @@ def _run(case):
         if not iso.isomorphic(s1, k1):
             out.fail(("canonical-graph-not-isomorphic-to-input", fam), f"{case}: canonical={sorted(s1, key=repr)}")
             return out
+        # the same graphs given as read-only union views (ReadOnlyGraphAggregate over a partition of the triples, or over the one graph)
+        view = case.get("view", 0)
+        if view:
+            def agg(j):
+                parts = [j[0::2], j[1::2]] if view == 1 else [j]
+                return ReadOnlyGraphAggregate([to_graph(x) for x in parts])
+            a1, a2 = agg(j1), agg(j2)
+            ca1, ca2 = sut(compare.to_canonical_graph, a1), sut(compare.to_canonical_graph, a2)
+            if is_err(ca1) or is_err(ca2):
+                out.fail(("to_canonical_graph-raises", "aggregate"), f"{ca1!r} {ca2!r}")
+                return out
+            if gkeys(ca1) != s1 or gkeys(ca2) != s2:
+                out.fail(("canonical-graph-of-aggregate-differs-from-that-of-its-union", fam), f"view={view}: {case}")
+                return out
+            r = sut(compare.isomorphic, a1, a2)
+            if is_err(r) or r != truth:
+                out.fail(("compare.isomorphic", "aggregate", "false-positive" if r is True else "false-negative", fam), f"truth={truth} got={r!r}: {case}")
+                return out
+            d = sut(compare.graph_diff, a1, a2)
+            if is_err(d):
+                out.fail(("graph_diff-raises", "aggregate", d.kind, d.site), f"{case}: {d!r}")
+                return out
+            both, first, second = (gkeys(x) for x in d)
+            if first & second or not iso.isomorphic(both | first, k1) or not iso.isomorphic(both | second, k2) or (truth and (first or second)):
+                out.fail(("graph_diff-of-aggregates", fam), f"view={view}: {case}: both={sorted(both, key=repr)} first={sorted(first, key=repr)} second={sorted(second, key=repr)}")
+                return out
+            out.cls("aggregate-view")
         # Graph.isomorphic: necessary condition only
         r = sut(g1.isomorphic, g2)
         if is_err(r) or (truth and not r):
@@ -238,8 +286,11 @@ def pairs(draw, tier):
             if repr(t) not in seen:
                 seen.add(repr(t)); d2.append(t)
         g2 = d2
+    copies = [[draw(st.permutations(range(len(labels)))), draw(st.lists(st.integers(0, 9), min_size=4, max_size=4))]
+              for _ in range(draw(st.sampled_from([0, 0, 2, 3])))] if labels else []
     edit = draw(st.one_of(st.none(), st.tuples(st.integers(0, 30), st.integers(0, 30)).map(list)))
-    return {"family": fam, "g1": g1, "g2": g2, "perturb": perturb, "skolem": draw(st.integers(0, 1)), "edit": edit}
+    return {"family": fam, "g1": g1, "g2": g2, "perturb": perturb, "skolem": draw(st.integers(0, 1)), "edit": edit, "copies": copies,
+            "view": draw(st.sampled_from([0, 0, 1, 2]))}
 
 
 SUBCHECKS = [Sub("pairs", lambda tier: pairs(tier), run, {"quick": 3200, "thorough": 48000})]
